@@ -16,7 +16,8 @@ import (
 // one input case: either a TLC-enumerated text with its SrcLines line table, a Mutate.tla mutant,
 // or (replay) raw bytes
 type callCase struct {
-	Bom    int        `json:"bom,omitempty"` // text cases: 1 = a byte order mark precedes the text
+	Bom    int        `json:"bom,omitempty"`   // text cases: 1 = a byte order mark precedes the text
+	Lines  []string   `json:"lines,omitempty"` // token-level cases: the input is these lines joined by LF
 	Text   []string   `json:"text,omitempty"`
 	NLines int        `json:"nlines,omitempty"`
 	Widths []int      `json:"widths,omitempty"`
@@ -171,6 +172,9 @@ func runCalls(in *bufio.Scanner, out *bufio.Writer, testdata, inputsPath string,
 					data, err = base64.StdEncoding.DecodeString(*c.Raw)
 				case c.File > 0:
 					data, err = applyChain(getBase(), c.File, c.Muts)
+				case c.Lines != nil:
+					data = []byte(strings.Join(c.Lines, "\n"))
+					specWidths = c.Widths
 				default:
 					data, err = concretise(c.Text)
 					if err == nil && bytes.HasPrefix(data, bomBytes) {
